@@ -259,6 +259,8 @@ def _call_inner(U, op, names, p, src, kind):
     except SimKill:
         raise
     except BaseException as e:
+        if type(e).__name__ in ('RunTimeout', 'RunTooBig'):
+            raise
         if op.get('reenter') is not None and names is not None:
             names.pop('re', None)
         if not isinstance(e, Exception):
@@ -391,7 +393,7 @@ def _execute(case, ctx, quiet=False):
             ctx.probe('fault_then_compared')
         fault_before = fault_before or is_fault
         # cross-check of the pristine copy against a real construction, on a small sample of calls
-        if (op.get('entropy', 1) % 211) == 0:
+        if (op.get('entropy', 1) % 211) == 0 and not quiet:       # (not once per enumerated kill point)
             sq = boot.TWIN.SqParser
             from .. import modstate
             modstate.reset(boot.SNAP_B)
